@@ -500,8 +500,16 @@ class WCSImageCatalog(object):
                 # is degenerate. Use entire image footprint.
                 return
 
+            polygon = SphericalPolygon.from_radec(ra, dec)
+            if polygon.is_clockwise() is None:
+                # sources are colinear to within the resolution of spherical
+                # polygons: the convex hull is degenerate on the sky (it
+                # cannot be oriented, contains no points and cannot be
+                # combined with other polygons). Use entire image footprint.
+                return
+
             self._bb_radec = (ra, dec)
-            self._polygon = SphericalPolygon.from_radec(ra, dec)
+            self._polygon = polygon
             self._poly_area = np.fabs(self._polygon.area())
 
     def calc_bounding_polygon(self):
